@@ -68,6 +68,7 @@ ASSUMPTIONS = ["vocabulary: spaces, cells (cached, one parameter, formulas: cons
                "reference), ItemSpaces of static spaces, model-level references to spaces; no renaming, no input values, "
                "no uncached cells, no space-level references",
                "known-defect triggers C13a C13e D3 avoided by the generator (see module docstring)",
+               "NewCells of a name that a sub space derives from another base is not drawn (which definer wins is decided by the C3 order, not modelled)",
                "nested class (ItemSpaces inside ItemSpaces, parameter formulas with precedents, value assignment, formula "
                "change, clear_all, space-level and attribute-path references): judged by the (P) oracle only (must-die list of "
                "the generator's mirror = a lower bound, reachability audit of the implementation's containers and graphs, "
